@@ -292,6 +292,10 @@ def mkPoint (m : Mode) (year : Int) (mo d doy hh mi ss : Option Int) (tzh tzm : 
   | none => .error .badInput
   | some tz =>
     if (mo.getD 0 ≠ 0 ∨ d.getD 0 ≠ 0) ∧ doy.isSome then .error .badInput
+    else if doy.isSome ∧ (mo.isSome ∨ d.isSome) then
+      -- a month or day of 0 beside a day of the year is no conflict for the constructor, but
+      -- `_check_bounds` still refuses it
+      .error .badInput
     else
       if dateOk m (pickDate year mo d doy) && timeOk m (hh.getD 0) (mi.getD 0) (ss.getD 0) then
         .ok ⟨pickDate year mo d doy, hh.getD 0, mi.getD 0, ss.getD 0, tz⟩
